@@ -170,6 +170,8 @@ def run(ctx):
         scs.append(G.gen_scenario(ctx.rng, twins=(i % 5 == 4)))
     for i in range(12 if quick else 300):
         scs.append(G.gen_crossing_scenario(ctx.rng))
+    for i in range(12 if quick else 300):
+        scs.append(G.gen_fork_scenario(ctx.rng))
     if not quick:
         fam = G.exhaustive_family(3)
         scs += fam
